@@ -67,6 +67,28 @@ func (st *ystyle) scalar(n *ynode) string {
 
 // a mapping key is looked up by its text: a key that would resolve to a number, a boolean, null or a date when written plain is
 // still that key (the VALUES of level lists are different: there the plain spelling is another YAML value, so they stay quoted)
+// blockScalar writes a one-line text as a literal (|) or folded (>) block scalar when that spells the same string: with the
+// default chomping the value ends in one line break, with `-` it ends without
+func (st *ystyle) blockScalar(w *strings.Builder, pad, k, s string, ind int) bool {
+	if st.flowP == 0 || !st.g.coin(0.2) {
+		return false // (the canonical spelling keeps to quoted and plain scalars)
+	}
+	body, chomp := s, "-"
+	if strings.HasSuffix(s, "\n") {
+		body, chomp = strings.TrimSuffix(s, "\n"), ""
+	}
+	if body == "" || strings.ContainsAny(body, "\n\r\t") || strings.HasPrefix(body, " ") || strings.HasSuffix(body, " ") || strings.ContainsAny(body, "\ufeff\u2028\u2029\u0085") {
+		return false
+	}
+	for _, r := range body {
+		if r < 0x20 || r == 0x7f {
+			return false
+		}
+	}
+	w.WriteString(pad + st.key(k) + ": " + st.g.pick([]string{"|", ">"}) + chomp + "\n" + pad + strings.Repeat(" ", st.indent) + body + "\n")
+	return true
+}
+
 func (st *ystyle) key(k string) string {
 	if !plainSafe(k) && plainTyped(k) && st.g.coin(0.5) {
 		return k
@@ -140,6 +162,7 @@ func (st *ystyle) block(w *strings.Builder, n *ynode, ind int) {
 				w.WriteString("\n")
 			}
 			switch {
+			case v.kind == "str" && st.blockScalar(w, pad, k, v.s, ind):
 			case v.kind != "map" && v.kind != "seq":
 				w.WriteString(pad + st.key(k) + ": " + st.scalar(v))
 				if st.comment && st.g.coin(0.1) {
@@ -432,6 +455,17 @@ func profileTree(g *G, p ProfileSpec, shuffle bool, prefixes []string) *ynode {
 			for _, i := range c.order(len(p.Validations)) {
 				v := p.Validations[i]
 				body := c.rule(v.Rule)
+				if len(body.keys) == 1 && body.keys[0] == "propertyConstraints" && (len(v.Name)+int(v.Name[len(v.Name)-1]))%3 == 0 {
+					// a second expression keyword next to propertyConstraints: the parser reads propertyConstraints and ignores the
+					// other one wherever it stands among the keys
+					decoy := ymap().put("propertyConstraints", ymap().put("ex.p0", ymap().put("minCount", yint(7))))
+					switch int(v.Name[len(v.Name)-1]) % 2 {
+					case 1:
+						body.put("not", decoy)
+					default:
+						body.put("or", yseq(decoy))
+					}
+				}
 				m := ymap()
 				extra := []string{"targetClass", "message"}
 				pos := c.order(len(extra) + len(body.keys))
@@ -440,7 +474,11 @@ func profileTree(g *G, p ProfileSpec, shuffle bool, prefixes []string) *ynode {
 					case k == 0:
 						m.put("targetClass", ystr(c.prefix()+"."+strings.TrimPrefix(v.Class, NS)))
 					case k == 1:
-						m.put("message", ystr("failed "+v.Name))
+						msg := "failed " + v.Name
+						if int(v.Name[len(v.Name)-1])%4 == 1 {
+							msg += "\n" // a text that ends in a line break (what a block scalar with default chomping spells)
+						}
+						m.put("message", ystr(msg))
 					default:
 						m.put(body.keys[k-2], body.vals[k-2])
 					}
